@@ -3849,13 +3849,27 @@ def run(ctx):
         spec["fn"](ctx)
     if ctx.mdrv_broken is not None and not ctx.violations:
         ctx.violation("mdrv-build", {"kind": "unproved", "what": "the Lean model no longer builds against the facts regenerated from the source", "detail": ctx.mdrv_broken}, found=False)
+    tie_lines, tie_note = [], ""
+    if not aud["ok"] and str(aud.get("target", "")).endswith("Tie"):
+        # a tie theorem (translated Go function = model function) broke: where do the two functions part ways?
+        import tiehunt
+        try:
+            tie_lines, tie_note = tiehunt.diagnose(ctx.prop)
+        except Exception as e:
+            tie_note = f"tie diagnosis failed: {e}"
+        for l in tie_lines[:5]:
+            ctx.notes.append("translated code vs model: " + l)
+            log("translated code vs model: " + l)
+        if tie_note:
+            ctx.notes.append(tie_note)
     if not aud["ok"] and not ctx.violations:
         # proof obligation no longer checks: property-specific hunt, then report
         hunt = spec.get("hunt")
         if hunt:
             hunt(ctx, aud)
         if not ctx.violations:
-            ctx.violation("proof:" + aud["why"], {"kind": "unproved", "theorem_module": aud.get("target"), "what": aud["why"], "detail": aud.get("detail", "")[:3000]}, found=False)
+            ctx.violation("proof:" + aud["why"], {"kind": "unproved", "theorem_module": aud.get("target"), "what": aud["why"], "detail": aud.get("detail", "")[:3000],
+                                                  "translated_code_vs_model": tie_lines[:8], "translator_note": tie_note}, found=False)
 
 
 def replay(ctx, path):
